@@ -14,11 +14,12 @@ import (
 
 func init() {
 	const f = "internal/peer/reconnect.go"
+	const mf = "internal/peer/manager.go"
 	register(&Check{
 		ID: "C31", Level: "other", Patterns: []string{"./internal/peer"},
 		Technique: "dominating guards + mutex regions + value provenance / interval arithmetic over go/ssa",
 		Explain: "Decides, for peer.Reconnector, that every invocation of the dial callback and every arming of a retry timer is gated by a test of the paused flag taken in the mutex region that immediately precedes it (also after the lock was dropped for the dial), that paused is only written as a constant under the mutex by methods that neither dial nor arm, that a timer reference is only dropped after Stop, that every stored nextDelay is InitialDelay, MaxDelay or a product of the previous delay and cfg.Multiplier that is clamped to MaxDelay on the greater-than edge, and that every armed delay is nextDelay passed through a jitter function whose offset is k*d*cfg.Jitter with |k|<=1 (interval arithmetic). " +
-			"Not decided: the floating-point statement for every k, attempts already dialing when Pause is called, timers owned by other components.",
+			"R5: a function that pauses reconnection (the sleep transition's disconnect) reaches the pause on every path to each return and does not resume afterwards; an absolute backoff (initial*multiplier^k) must be clamped before it is converted to an integer duration. Not decided: the floating-point statement for every k, attempts already dialing when Pause is called, timers owned by other components.",
 		Run: runC31,
 		SelfTests: []SelfTest{
 			{Name: "paused test before the dial dropped", ExpectRule: "C31.R1", ExpectKey: "callback call", Edits: []Edit{
@@ -56,6 +57,44 @@ func init() {
 			}},
 			{Name: "jitter offset ignores cfg.Jitter", ExpectRule: "C31.R4", ExpectKey: "jitter", Edits: []Edit{
 				{File: f, Old: "jitterRange := float64(d) * r.cfg.Jitter", New: "jitterRange := float64(d) * 0.9"},
+			}},
+			// round 2: seeded classes and neighbours
+			{Name: "fast path returns before the reconnector is paused", ExpectRule: "C31.R5", ExpectKey: "DisconnectAll", Edits: []Edit{
+				{File: mf, Old: "\t// Stop reconnector temporarily to prevent immediate reconnection\n\tm.reconnector.Pause()\n", New: "\tif len(conns) == 0 {\n\t\treturn nil\n\t}\n\n\t// Stop reconnector temporarily to prevent immediate reconnection\n\tm.reconnector.Pause()\n"},
+			}},
+			{Name: "reconnector paused only when connections were open", ExpectRule: "C31.R5", ExpectKey: "DisconnectAll", Edits: []Edit{
+				{File: mf, Old: "\t// Stop reconnector temporarily to prevent immediate reconnection\n\tm.reconnector.Pause()\n", New: "\tif len(conns) > 0 {\n\t\tm.reconnector.Pause()\n\t}\n"},
+			}},
+			{Name: "reconnector resumed at the end of the function that paused it", ExpectRule: "C31.R5", ExpectKey: "stays paused", Edits: []Edit{
+				{File: mf, Old: "\tm.logger.Info(\"disconnected all peers\", \"count\", len(conns))\n", New: "\tm.reconnector.Resume()\n\tm.logger.Info(\"disconnected all peers\", \"count\", len(conns))\n"},
+			}},
+			{Name: "delay derived from the attempt count, clamped after the conversion to Duration", ExpectRule: "C31.R3", ExpectKey: "growth", Edits: []Edit{
+				{File: f, Old: "\tnextDelay := time.Duration(float64(state.nextDelay) * r.cfg.Multiplier)\n\tif nextDelay > r.cfg.MaxDelay {\n\t\tnextDelay = r.cfg.MaxDelay\n\t}\n\tstate.nextDelay = nextDelay\n", New: "\tstate.nextDelay = r.backoffDelay(state.attempts)\n"},
+				{File: f, Old: "// addJitter adds random jitter to a duration.", New: "func (r *Reconnector) backoffDelay(attempts int) time.Duration {\n\tdelay := time.Duration(float64(r.cfg.InitialDelay) * math.Pow(r.cfg.Multiplier, float64(attempts)))\n\tif delay > r.cfg.MaxDelay {\n\t\tdelay = r.cfg.MaxDelay\n\t}\n\treturn delay\n}\n\n// addJitter adds random jitter to a duration."},
+			}},
+			{Name: "attempt-count form clamped with min after the conversion", ExpectRule: "C31.R3", ExpectKey: "growth", Edits: []Edit{
+				{File: f, Old: "\tnextDelay := time.Duration(float64(state.nextDelay) * r.cfg.Multiplier)\n\tif nextDelay > r.cfg.MaxDelay {\n\t\tnextDelay = r.cfg.MaxDelay\n\t}\n\tstate.nextDelay = nextDelay\n", New: "\tstate.nextDelay = min(time.Duration(float64(r.cfg.InitialDelay)*math.Pow(r.cfg.Multiplier, float64(state.attempts))), r.cfg.MaxDelay)\n"},
+			}},
+			{Name: "backoff reset to the initial delay on every failed attempt", ExpectRule: "C31.R3", ExpectKey: "reset", Edits: []Edit{
+				{File: f, Old: "\t\t\tdelay := r.addJitter(state.nextDelay)\n\t\t\tstate.timer = time.AfterFunc(delay, func() {\n\t\t\t\tr.attemptReconnect(addr)", New: "\t\t\tstate.nextDelay = r.cfg.InitialDelay\n\t\t\tdelay := r.addJitter(state.nextDelay)\n\t\t\tstate.timer = time.AfterFunc(delay, func() {\n\t\t\t\tr.attemptReconnect(addr)"},
+			}},
+			{Name: "Schedule replaces the recorded timer without stopping it", ExpectRule: "C31.R2", ExpectKey: "Schedule timer replaced", Edits: []Edit{
+				{File: f, Old: "\t// Cancel any existing timer\n\tif state.timer != nil {\n\t\tstate.timer.Stop()\n\t}\n", New: ""},
+			}},
+			{Name: "re-arm after the dial does not stop a timer recorded meanwhile", ExpectRule: "C31.R2", ExpectKey: "attemptReconnect timer replaced", Edits: []Edit{
+				{File: f, Old: "\t\t\tif state.timer != nil {\n\t\t\t\tstate.timer.Stop()\n\t\t\t}\n\t\t\tdelay := r.addJitter(state.nextDelay)", New: "\t\t\tdelay := r.addJitter(state.nextDelay)"},
+			}},
+			{Name: "recorded timer stopped before the dial only", ExpectRule: "C31.R2", ExpectKey: "attemptReconnect timer replaced", Edits: []Edit{
+				{File: f, Old: "\tstate.attempts++\n", New: "\tstate.attempts++\n\tif state.timer != nil {\n\t\tstate.timer.Stop()\n\t}\n"},
+				{File: f, Old: "\t\t\tif state.timer != nil {\n\t\t\t\tstate.timer.Stop()\n\t\t\t}\n\t\t\tdelay := r.addJitter(state.nextDelay)", New: "\t\t\tdelay := r.addJitter(state.nextDelay)"},
+			}},
+			{Name: "rewrite: attempt-count form clamped in the floating domain", Edits: []Edit{
+				{File: f, Old: "\tnextDelay := time.Duration(float64(state.nextDelay) * r.cfg.Multiplier)\n\tif nextDelay > r.cfg.MaxDelay {\n\t\tnextDelay = r.cfg.MaxDelay\n\t}\n\tstate.nextDelay = nextDelay\n", New: "\tstate.nextDelay = r.backoffDelay(state.attempts)\n"},
+				{File: f, Old: "// addJitter adds random jitter to a duration.", New: "func (r *Reconnector) backoffDelay(attempts int) time.Duration {\n\tdelay := float64(r.cfg.InitialDelay) * math.Pow(r.cfg.Multiplier, float64(attempts))\n\tif delay > float64(r.cfg.MaxDelay) {\n\t\tdelay = float64(r.cfg.MaxDelay)\n\t}\n\treturn time.Duration(delay)\n}\n\n// addJitter adds random jitter to a duration."},
+			}},
+			{Name: "rewrite: reconnector paused first, before the connections are collected", Edits: []Edit{
+				{File: mf, Old: "\t// Stop reconnector temporarily to prevent immediate reconnection\n\tm.reconnector.Pause()\n", New: ""},
+				{File: mf, Old: "func (m *Manager) DisconnectAll() error {\n\tm.mu.Lock()\n", New: "func (m *Manager) DisconnectAll() error {\n\tm.reconnector.Pause()\n\tm.mu.Lock()\n"},
 			}},
 			// behaviour-preserving rewrites
 			{Name: "rewrite: paused tested through the locked accessor pattern (flag copied under the lock)", Edits: []Edit{
@@ -99,6 +138,7 @@ type c31ctx struct {
 	funcs                           []*ssa.Function // Reconnector methods and their closures
 	isFunc                          map[*ssa.Function]bool
 	locks                           map[*ssa.Function]*kit.LockInfo
+	narrow                          map[ssa.Value]bool // growth values that are compared with MaxDelay only after a float->integer conversion
 }
 
 type c31sink struct {
@@ -127,11 +167,12 @@ func c31IsTimerArm(c ssa.CallInstruction) bool {
 
 func runC31(p *kit.Program, r *kit.Report) {
 	r.Rule("C31.R1", "every invocation of the Reconnector's dial callback and every arming of a retry timer is guarded by a test of `paused` (false edge) read under r.mu, with no re-acquisition of r.mu between the test and the guarded operation; a helper without its own test is gated at each of its call sites")
-	r.Rule("C31.R2", "`paused` is written only as a constant, under r.mu, by functions that neither dial nor arm a timer; a timer reference is set to nil only after Stop() on it")
+	r.Rule("C31.R2", "`paused` is written only as a constant, under r.mu, by functions that neither dial nor arm a timer; a timer reference is set to nil, or replaced by a new timer, only after Stop() on it in the same critical section")
 	r.Rule("C31.R3", "every value stored into nextDelay is cfg.InitialDelay, cfg.MaxDelay, or a growth value that reaches the store only on an edge where it is not greater than cfg.MaxDelay (clamp); the growth value is previous-delay (or InitialDelay) times cfg.Multiplier (or Pow(cfg.Multiplier, k))")
+	r.Rule("C31.R5", "a function (outside the Reconnector) that pauses reconnection reaches the pausing call on every condition-consistent path to each of its returns, and does not resume afterwards: no fast path or early return in front of the pause")
 	r.Rule("C31.R4", "every armed delay is nextDelay, optionally passed through the jitter function; the jitter function returns d, or d + k*d*cfg.Jitter with |k| <= 1 by interval arithmetic")
 
-	cx := &c31ctx{p: p, r: r, isFunc: map[*ssa.Function]bool{}, locks: map[*ssa.Function]*kit.LockInfo{}}
+	cx := &c31ctx{p: p, r: r, isFunc: map[*ssa.Function]bool{}, locks: map[*ssa.Function]*kit.LockInfo{}, narrow: map[ssa.Value]bool{}}
 	rec := p.NamedType("internal/peer", "Reconnector")
 	if !r.Require(rec != nil, "anchor-unresolved: type internal/peer.Reconnector") {
 		return
@@ -234,6 +275,7 @@ func runC31(p *kit.Program, r *kit.Report) {
 		sinkIn[kit.TopLevel(s.fn)] = true
 	}
 	nTrue, nFalse := 0, 0
+	pauseFns, resumeFns := map[*ssa.Function]bool{}, map[*ssa.Function]bool{}
 	ord := map[string]int{}
 	for _, acc := range p.FieldAccessesOfKind(cx.paused, kit.FieldStore, kit.FieldAddrUse) {
 		fname := kit.FuncName(acc.Fn)
@@ -251,8 +293,10 @@ func runC31(p *kit.Program, r *kit.Report) {
 		}
 		if b {
 			nTrue++
+			pauseFns[kit.TopLevel(acc.Fn)] = true
 		} else {
 			nFalse++
+			resumeFns[kit.TopLevel(acc.Fn)] = true
 		}
 		_, held := cx.lockInfo(acc.Fn).HeldAt(acc.Instr, cx.mu)
 		switch {
@@ -265,6 +309,63 @@ func runC31(p *kit.Program, r *kit.Report) {
 		}
 	}
 	r.Require(nTrue >= 1 && nFalse >= 1, "floor: expected at least one store of true and one of false to Reconnector.paused (found %d/%d)", nTrue, nFalse)
+
+	// ---- R5: the functions that pause reconnection for the sleep transition pause on every path
+	isCallTo := func(in ssa.Instruction, set map[*ssa.Function]bool) bool {
+		c, ok := in.(ssa.CallInstruction)
+		if !ok {
+			return false
+		}
+		if _, isGo := in.(*ssa.Go); isGo {
+			return false
+		}
+		cal := kit.CalleeOf(c)
+		return cal.Static != nil && set[cal.Static]
+	}
+	pausers := map[*ssa.Function]bool{}
+	for fn := range pauseFns {
+		for _, c := range p.StaticCallers(fn) {
+			if h := c.Parent(); !cx.isFunc[h] {
+				pausers[h] = true
+			}
+		}
+	}
+	r.Count("functions_pausing_reconnection", len(pausers))
+	for _, h := range p.FuncsInPkg("internal/peer") { // deterministic order
+		if !pausers[h] {
+			continue
+		}
+		hname := kit.FuncName(h)
+		nRet := 0
+		for _, ret := range kit.Returns(h) {
+			if ret.Block() == h.Recover {
+				continue
+			}
+			nRet++
+			path, found := kit.PathAvoiding(h, ret, func(in ssa.Instruction) bool { return isCallTo(in, pauseFns) })
+			blocks := ""
+			for _, b := range path {
+				blocks += fmt.Sprintf(" %d", b.Index)
+			}
+			r.Decide(!found, "C31.R5", fmt.Sprintf("%s pauses before return #%d", hname, nRet), p.Pos(ret.Pos()),
+				"every path to this return pauses the reconnector",
+				"this return is reachable without pausing the reconnector (blocks"+blocks+"): the caller treats the agent as asleep while `paused` is still false, pending retry timers keep dialing through the sleep period")
+		}
+		// no resume after the pause in the same function
+		bad := ""
+		kit.Instrs(h, func(in ssa.Instruction) {
+			if !isCallTo(in, pauseFns) {
+				return
+			}
+			kit.Instrs(h, func(in2 ssa.Instruction) {
+				if isCallTo(in2, resumeFns) && kit.CanReach(in, in2) {
+					bad = p.Pos(in2.Pos())
+				}
+			})
+		})
+		r.Decide(bad == "", "C31.R5", hname+" stays paused", p.Pos(h.Pos()), "the reconnector is not resumed after it was paused",
+			"the reconnector is resumed at "+bad+" after it was paused in the same function: the agent sleeps with reconnection active")
+	}
 	ord = map[string]int{}
 	for _, acc := range p.FieldAccessesOfKind(cx.stTimer, kit.FieldStore) {
 		if !kit.IsNilConst(acc.Val) {
@@ -283,6 +384,54 @@ func runC31(p *kit.Program, r *kit.Report) {
 			"the timer reference is dropped without Stop(): the old timer still fires after Resume() next to the newly scheduled one, two retry chains halve the backoff delay")
 	}
 
+	// a new timer may replace the recorded one only after Stop() on the recorded one, with the mutex
+	// held since: the dial callback runs with the mutex released and may re-enter Schedule, which
+	// records a timer of its own
+	ord = map[string]int{}
+	for _, acc := range p.FieldAccessesOfKind(cx.stTimer, kit.FieldStore) {
+		if kit.IsNilConst(acc.Val) {
+			continue
+		}
+		fname := kit.FuncName(acc.Fn)
+		ord[fname]++
+		key := fmt.Sprintf("%s timer replaced #%d", fname, ord[fname])
+		pos := p.Pos(acc.Instr.Pos())
+		if _, fresh := acc.Base.(*ssa.Alloc); fresh {
+			r.OK("C31.R2", key, pos, "timer of a freshly created state")
+			continue
+		}
+		okStop, why := cx.timerStopCovers(acc.Fn, acc.Base, acc.Instr)
+		if !okStop {
+			// "arm" helper taking the state: the recorded timer is stopped by each caller
+			if prm, isParam := acc.Base.(*ssa.Parameter); isParam && acc.Fn.Parent() == nil {
+				idx := -1
+				for i, q := range acc.Fn.Params {
+					if q == prm {
+						idx = i
+					}
+				}
+				callers := p.StaticCallers(acc.Fn)
+				if idx >= 0 && len(callers) > 0 {
+					all := true
+					for _, c := range callers {
+						if idx >= len(c.Common().Args) {
+							all = false
+							continue
+						}
+						if o, w := cx.timerStopCovers(c.Parent(), c.Common().Args[idx], c); !o {
+							all, why = false, "at the call in "+kit.FuncName(c.Parent())+": "+w
+						}
+					}
+					if all {
+						okStop, why = true, fmt.Sprintf("helper; each of its %d caller(s) stops the recorded timer in the same critical section before the call", len(callers))
+					}
+				}
+			}
+		}
+		r.Decide(okStop, "C31.R2", key, pos, why,
+			why+": a timer recorded meanwhile (the dial callback re-enters Schedule on a failed dial) keeps running next to the new one, both fire, and the retry chains multiply instead of following the backoff delay")
+	}
+
 	// ---- R3
 	ord = map[string]int{}
 	nStores := 0
@@ -298,7 +447,21 @@ func runC31(p *kit.Program, r *kit.Report) {
 		for i, g := range growth {
 			gok, gwhy := cx.growthForm(g)
 			r.Decide(gok, "C31.R3", fmt.Sprintf("%s growth #%d", key, i+1), p.Pos(acc.Instr.Pos()), gwhy,
-				"the growth value is not previous-delay x cfg.Multiplier ("+gwhy+"): the k-th retry delay is not initial*multiplier^k")
+				"the growth value is not a clamped previous-delay x cfg.Multiplier ("+gwhy+"): the k-th retry delay is not min(initial*multiplier^k, max)")
+		}
+		// the delay may restart from InitialDelay only in a freshly created state: a reset inside the
+		// attempt path removes the backoff between consecutive failures
+		if kit.IsLoadOfField(acc.Val, cx.cfgInit) {
+			_, fresh := acc.Base.(*ssa.Alloc)
+			dials := false
+			for _, s := range sinks {
+				if s.kind == "callback call" && kit.TopLevel(s.fn) == kit.TopLevel(acc.Fn) {
+					dials = true
+				}
+			}
+			if !fresh && dials {
+				r.Violation("C31.R3", key+" reset", p.Pos(acc.Instr.Pos()), "the stored delay of an existing reconnect state is set back to InitialDelay in the function that performs the attempt: consecutive failures are retried at the initial delay, not at initial*multiplier^k")
+			}
 		}
 	}
 	r.Count("nextDelay_stores", nStores)
@@ -617,7 +780,11 @@ func (cx *c31ctx) bounded(v ssa.Value, gs []kit.Guard, depth int, growth *[]ssa.
 			if hasMax {
 				for _, a := range x.Call.Args {
 					if !kit.IsLoadOfField(a, cx.cfgMax) && !kit.IsLoadOfField(a, cx.cfgInit) {
-						*growth = append(*growth, kit.StripConv(a))
+						g := kit.StripConv(a)
+						if c31NarrowedBetween(a, g) {
+							cx.narrow[g] = true
+						}
+						*growth = append(*growth, g)
 					}
 				}
 				return true, "min(.., MaxDelay)"
@@ -658,10 +825,11 @@ func (cx *c31ctx) bounded(v ssa.Value, gs []kit.Guard, depth int, growth *[]ssa.
 			continue
 		}
 		op := b.Op
+		opnd := b.X
 		switch {
 		case kit.StripConv(b.X) == s && kit.IsLoadOfField(b.Y, cx.cfgMax):
 		case kit.StripConv(b.Y) == s && kit.IsLoadOfField(b.X, cx.cfgMax):
-			op = flipCmp(op)
+			op, opnd = flipCmp(op), b.Y
 		default:
 			continue
 		}
@@ -673,12 +841,85 @@ func (cx *c31ctx) bounded(v ssa.Value, gs []kit.Guard, depth int, growth *[]ssa.
 		pol := g.Polarity != neg
 		// "s OP Max" evaluated for s > Max must contradict the edge taken
 		if cmpHolds(op, +1) != pol {
+			if c31NarrowedBetween(opnd, s) {
+				cx.narrow[s] = true
+			}
 			*growth = append(*growth, s)
 			return true, "value reaches the store only when it is not above MaxDelay (" + cx.p.Pos(c31GuardPos(g)) + ")"
 		}
 		return false, "the comparison with MaxDelay at " + cx.p.Pos(c31GuardPos(g)) + " lets the value through exactly when it exceeds MaxDelay"
 	}
 	return false, "no comparison with cfg.MaxDelay guards the value"
+}
+
+// timerStopCovers: before instruction `at` in fn, Stop() is called on the timer recorded in the
+// state `base` (unconditionally, or under `if base.timer != nil`), and the mutex is not
+// re-acquired between that Stop and `at`.
+func (cx *c31ctx) timerStopCovers(fn *ssa.Function, base ssa.Value, at ssa.Instruction) (bool, string) {
+	p := cx.p
+	li := cx.lockInfo(fn)
+	why := "no Stop() on the recorded timer before it is replaced"
+	for _, c := range kit.CallsTo(fn, "time", "Timer", "Stop") {
+		lf, b0 := kit.LoadedField(kit.Receiver(c))
+		if lf != cx.stTimer || b0 != base {
+			continue
+		}
+		covers := kit.Precedes(c, at)
+		if !covers {
+			blk := c.Block()
+			if len(blk.Preds) == 1 && len(blk.Preds[0].Instrs) > 0 {
+				if ifi, ok := blk.Preds[0].Instrs[len(blk.Preds[0].Instrs)-1].(*ssa.If); ok && kit.Precedes(ifi, at) {
+					if b, ok := ifi.Cond.(*ssa.BinOp); ok && (b.Op == token.NEQ || b.Op == token.EQL) {
+						other := b.X
+						if kit.IsNilConst(b.X) {
+							other = b.Y
+						}
+						f2, b2 := kit.LoadedField(other)
+						onNonNilEdge := (b.Op == token.NEQ && blk == blk.Preds[0].Succs[0]) || (b.Op == token.EQL && blk == blk.Preds[0].Succs[1])
+						if f2 == cx.stTimer && b2 == base && onNonNilEdge {
+							covers = true
+						}
+					}
+				}
+			}
+		}
+		if !covers {
+			continue
+		}
+		relocked := false
+		for _, op := range li.Ops {
+			if op.Mutex == cx.mu && op.Acquire && !op.Defer && kit.CanReach(c, op.Instr) && kit.CanReach(op.Instr, at) {
+				relocked = true
+			}
+		}
+		if relocked {
+			why = "the Stop() at " + p.Pos(c.Pos()) + " belongs to an earlier critical section (the mutex was released since, a timer may have been recorded in between)"
+			continue
+		}
+		return true, "Stop() on the recorded timer at " + p.Pos(c.Pos()) + " in the same critical section"
+	}
+	return false, why
+}
+
+// c31NarrowedBetween: walking from outer through conversions down to inner, a float value is
+// converted to an integer type.
+func c31NarrowedBetween(outer, inner ssa.Value) bool {
+	for v := outer; v != inner; {
+		switch x := v.(type) {
+		case *ssa.Convert:
+			from, ok1 := x.X.Type().Underlying().(*types.Basic)
+			to, ok2 := x.Type().Underlying().(*types.Basic)
+			if ok1 && ok2 && from.Info()&types.IsFloat != 0 && to.Info()&types.IsInteger != 0 {
+				return true
+			}
+			v = x.X
+		case *ssa.ChangeType:
+			v = x.X
+		default:
+			return false
+		}
+	}
+	return false
 }
 
 // growthForm: g is a product of (previous delay | InitialDelay) and (cfg.Multiplier | Pow(cfg.Multiplier, _)).
@@ -706,6 +947,17 @@ func (cx *c31ctx) growthForm(g ssa.Value) (bool, string) {
 		}
 	}
 	if base == 1 && mult == 1 {
+		// A product that restarts from InitialDelay (initial * multiplier^k) grows without bound in k;
+		// the incremental product restarts from the stored, already clamped delay.
+		absolute := false
+		for _, f := range fs {
+			if _, isCall := f.(*ssa.Call); isCall || kit.IsLoadOfField(f, cx.cfgInit) {
+				absolute = true
+			}
+		}
+		if absolute && cx.narrow[g] {
+			return false, "the unbounded product initial*multiplier^k is converted to an integer duration before it is compared with MaxDelay; past 2^63 ns the conversion wraps to a negative delay that passes the clamp and the retries fire back to back"
+		}
 		return true, "previous delay x cfg.Multiplier"
 	}
 	return false, fmt.Sprintf("product has %d delay factor(s) and %d multiplier factor(s)", base, mult)
